@@ -390,3 +390,59 @@ func returnsIn(n ast.Node) []*ast.ReturnStmt {
 	})
 	return out
 }
+
+// otherEdge describes the edge of an if statement that does NOT lead to n:
+// the calls made on it, whether a call on it is made unconditionally, and
+// whether n cannot be reached along it. The shapes:
+//
+//	if c {…n…} else {E}        E
+//	if c {E} else {…n…}        E
+//	if c {E; leave}; …n…       E
+//	if c {…n…; leave}; E…      the statements that follow the if in its block
+func (fi *FuncInfo) otherEdge(is *ast.IfStmt, n ast.Node) (calls []*ast.CallExpr, uncond func(*ast.CallExpr) bool, cannotReach bool, ok bool) {
+	blockEdge := func(b ast.Node, cr bool) ([]*ast.CallExpr, func(*ast.CallExpr) bool, bool, bool) {
+		return callsIn(b), func(cl *ast.CallExpr) bool { return fi.unconditionalIn(cl, b) }, cr, true
+	}
+	switch {
+	case fi.within(n, is.Body) && is.Else != nil:
+		return blockEdge(is.Else, true)
+	case is.Else != nil && fi.within(n, is.Else):
+		return blockEdge(is.Body, true)
+	case !fi.within(n, is.Body):
+		return blockEdge(is.Body, terminates(is.Body))
+	case terminates(is.Body):
+		var list []ast.Stmt
+		var top ast.Node
+		switch p := fi.parent[is].(type) {
+		case *ast.BlockStmt:
+			list, top = p.List, p
+		case *ast.CaseClause:
+			list, top = p.Body, p
+		}
+		var rest []ast.Stmt
+		before := map[ast.Node]bool{} // the if itself and what precedes it: conditions that hold on both edges
+		for i, st := range list {
+			if st == ast.Stmt(is) {
+				rest = list[i+1:]
+				for _, b := range list[:i+1] {
+					before[b] = true
+				}
+			}
+		}
+		if len(rest) == 0 {
+			return nil, nil, false, false
+		}
+		for _, st := range rest {
+			calls = append(calls, callsIn(st)...)
+		}
+		return calls, func(cl *ast.CallExpr) bool {
+			for _, g := range fi.GuardsWithin(cl, top) {
+				if !before[g.At] {
+					return false
+				}
+			}
+			return !fi.inNestedLoopOrLit(cl, top)
+		}, true, true
+	}
+	return nil, nil, false, false
+}
